@@ -279,17 +279,17 @@ Proof.
   all: try solve [intros k1 Hk1 d' Hd'; apply (Vst k1 Hk1); cbn [firstn] in Hd'; rewrite app_nil_r in Hd'; assumption].
   - (* one node of the cycle check *)
     intros o' q' sn' d' Hq Hd x Hx. inversion Hq; inversion Hd; subst.
-    destruct (bfs_push_in _ _ _ _ _ _ Heqp x Hx) as [Hin|Hin].
+    match goal with Hb : bfs_push _ _ _ _ = _ |- _ => destruct (bfs_push_in _ _ _ _ _ _ Hb x Hx) as [Hin|Hin] end.
     + apply (Vb _ _ _ _ eq_refl eq_refl). right. assumption.
     + apply deps_of_In in Hin. pose proof (k_e1 _ Hk _ _ Hin) as Hf. pose proof (Hdag _ _ _ Hf).
       pose proof (Vb _ _ _ _ eq_refl eq_refl k0 (or_introl eq_refl)). lia.
-  - intros k1 Hk1 d' Hd'. inversion Hk1; subst k1. rewrite (nth_error_nth _ _ _ Heqo) in *.
+  - intros k1 Hk1 d' Hd'. injection Hk1 as <-. rewrite (nth_error_nth _ _ _ Heqo) in *
     rewrite (firstn_S_nth _ _ _ Heqo0) in Hd'. rewrite app_assoc in Hd'. apply in_app_or in Hd'.
     destruct Hd' as [Hd'|[<-|[]]]; [apply (Vst _ eq_refl); assumption|apply Enew; reflexivity].
-  - intros k1 Hk1 d' Hd'. inversion Hk1; subst k1. rewrite (nth_error_nth _ _ _ Heqo) in *.
+  - intros k1 Hk1 d' Hd'. injection Hk1 as <-. rewrite (nth_error_nth _ _ _ Heqo) in *
     rewrite (firstn_S_nth _ _ _ Heqo0) in Hd'. rewrite app_assoc in Hd'. apply in_app_or in Hd'.
     destruct Hd' as [Hd'|[<-|[]]]; [apply (Vst _ eq_refl); assumption|apply Enew; reflexivity].
-  - intros k1 Hk1 d' Hd'. inversion Hk1; subst k1. rewrite (nth_error_nth _ _ _ Heqo) in *.
+  - intros k1 Hk1 d' Hd'. injection Hk1 as <-. rewrite (nth_error_nth _ _ _ Heqo) in *
     rewrite (firstn_S_nth _ _ _ Heqo0) in Hd'. rewrite app_assoc in Hd'. apply in_app_or in Hd'.
     destruct Hd' as [Hd'|[<-|[]]]; [apply (Vst _ eq_refl); assumption|apply Enew; reflexivity].
   - intros k1 Hk1 d' Hd'. apply (Vst k1 Hk1). rewrite (nth_error_nth _ _ _ Heqo).
